@@ -4416,14 +4416,16 @@ func (t *Terminal) Loop() error {
 		}()
 	}
 
-	// Signalled by the previewer each time a preview command has been cleaned up
-	previewing := util.NewAtomicBool(false)
-	previewCleaned := make(chan struct{}, 1)
+	// The previewer goroutine ends when the session is over (reqQuit)
+	previewerReady := util.NewAtomicBool(false)
+	previewerDone := make(chan struct{})
 	if t.hasPreviewer() {
 		go func() {
+			defer close(previewerDone)
 			var version int64
 			stop := false
 			t.previewBox.WaitFor(reqPreviewReady)
+			previewerReady.Set(true)
 			for {
 				var items []*Item
 				var commandTemplate string
@@ -4467,7 +4469,6 @@ func (t *Terminal) Loop() error {
 					finishChan := make(chan bool, 1)
 					err := cmd.Start()
 					if err == nil {
-						previewing.Set(true)
 						reapChan := make(chan bool)
 						lineChan := make(chan eachLine)
 						// Goroutine 1 reads process output
@@ -4591,11 +4592,6 @@ func (t *Terminal) Loop() error {
 						<-reapChan         // Goroutine 2 and 3 finished
 						<-reapChan
 						removeFiles(tempFiles)
-						previewing.Set(false)
-						select {
-						case previewCleaned <- struct{}{}:
-						default:
-						}
 					} else {
 						// Failed to start the command. Report the error immediately.
 						t.reqBox.Set(reqPreviewDisplay, previewResult{version, []string{err.Error()}, 0, ""})
@@ -4795,14 +4791,13 @@ func (t *Terminal) Loop() error {
 		t.running.Set(false)
 		t.killPreview()
 		cancel()
-		// Give the previewer a chance to kill the running command and to remove
-		// its temporary files before the process exits
-		deadline := time.After(previewCancelWait)
-		for previewing.Get() {
+		if previewerReady.Get() {
+			// Give the previewer a chance to kill the command it is running (or is
+			// about to start) and to remove its temporary files before the process
+			// exits
 			select {
-			case <-previewCleaned:
-			case <-deadline:
-				previewing.Set(false)
+			case <-previewerDone:
+			case <-time.After(previewCancelWait):
 			}
 		}
 		t.eventBox.Set(EvtQuit, quitSignal{code, nil})
